@@ -17,19 +17,28 @@ import (
 // C08 — a stream that ends or fails inside a packet is reported.
 
 type caseC08 struct {
-	Frame    Hex    `json:"frame"`
-	Cut      int    `json:"cut"`      // bytes delivered before the failure
-	Failure  string `json:"failure"`  // "EOF" | "X" (injected error value)
-	Together bool   `json:"together"` // failure arrives together with the last delivered bytes
-	Delivery string `json:"delivery"` // "contiguous" | "bytewise" | "chunks"
-	Chunks   []int  `json:"chunks,omitempty"`
-	Reader   string `json:"reader,omitempty"` // "" / script, bufio16, bufio4096
+	Frame     Hex    `json:"frame"`
+	Cut       int    `json:"cut"`                  // bytes delivered before the failure
+	Failure   string `json:"failure"`              // "EOF" | "X" (fresh error value) | "UEOF" (io.ErrUnexpectedEOF itself) | "WUEOF" / "WEOF" (an error wrapping io.ErrUnexpectedEOF / io.EOF, as TLS does)
+	NonSticky bool   `json:"non_sticky,omitempty"` // the failure is reported once, afterwards the stream just ends
+	Together  bool   `json:"together"`             // failure arrives together with the last delivered bytes
+	Delivery  string `json:"delivery"`             // "contiguous" | "bytewise" | "chunks"
+	Chunks    []int  `json:"chunks,omitempty"`
+	Reader    string `json:"reader,omitempty"` // "" / script, bufio16, bufio4096
 }
 
 func checkC08(c caseC08) (sig, msg string) {
-	injected := &guard.InjectedError{ID: c.Cut + 1}
+	var injected error = &guard.InjectedError{ID: c.Cut + 1}
+	switch c.Failure {
+	case "UEOF":
+		injected = io.ErrUnexpectedEOF
+	case "WUEOF":
+		injected = fmt.Errorf("tls: %w", io.ErrUnexpectedEOF)
+	case "WEOF":
+		injected = fmt.Errorf("conn: %w", io.EOF)
+	}
 	var fail error = io.EOF
-	if c.Failure == "X" {
+	if c.Failure != "EOF" {
 		fail = injected
 	}
 	prefix := c.Frame[:c.Cut]
@@ -50,11 +59,14 @@ func checkC08(c caseC08) (sig, msg string) {
 	for i, n := range chunks {
 		s := guard.Step{N: n}
 		if c.Together && i == len(chunks)-1 {
-			s.Err = c.Failure
+			s.Err = "X"
+			if c.Failure == "EOF" {
+				s.Err = "EOF"
+			}
 		}
 		steps = append(steps, s)
 	}
-	sr := &guard.ScriptReader{Data: prefix, Steps: steps, Injected: injected, After: fail}
+	sr := &guard.ScriptReader{Data: prefix, Steps: steps, Injected: injected, After: fail, NonSticky: c.NonSticky}
 	if c.Delivery == "contiguous" && !c.Together {
 		sr.Steps = nil // deliver as much as each Read asks for, then the failure
 	}
@@ -72,7 +84,7 @@ func checkC08(c caseC08) (sig, msg string) {
 	if got.Err == nil {
 		return "nil-nil", fmt.Sprintf("%s: ReadPacket returned (nil, nil)", desc)
 	}
-	if c.Failure == "X" && !errors.Is(got.Err, injected) {
+	if c.Failure != "EOF" && !errors.Is(got.Err, injected) {
 		return "error-not-wrapped", fmt.Sprintf("%s: errors.Is(err, injected) is false, err = %v", desc, got.Err)
 	}
 	if c.Failure == "EOF" && c.Cut == 0 && !errors.Is(got.Err, io.EOF) {
@@ -145,7 +157,8 @@ func TestC08(t *testing.T) {
 		}
 		for _, k := range cuts {
 			c := caseC08{Frame: frame, Cut: k}
-			c.Failure = rapid.SampledFrom([]string{"EOF", "X"}).Draw(t, "failure")
+			c.Failure = rapid.SampledFrom([]string{"EOF", "EOF", "X", "X", "UEOF", "WUEOF", "WEOF"}).Draw(t, "failure")
+			c.NonSticky = c.Failure != "EOF" && rapid.IntRange(0, 2).Draw(t, "nonsticky") == 0
 			c.Together = k > 0 && rapid.Bool().Draw(t, "together")
 			c.Delivery = rapid.SampledFrom([]string{"contiguous", "bytewise", "chunks"}).Draw(t, "delivery")
 			if c.Delivery == "chunks" {
@@ -157,7 +170,7 @@ func TestC08(t *testing.T) {
 			c.Reader = rapid.SampledFrom([]string{"script", "script", "script", "bufio16", "bufio4096"}).Draw(t, "reader")
 			sig, msg := checkC08(c)
 			nt, class := c08Class(c)
-			r.Case(vf.FPs(string(frame), fmt.Sprint(c.Cut, c.Failure, c.Together, c.Delivery, c.Chunks, c.Reader)), nt, kind+"/"+class, func() interface{} {
+			r.Case(vf.FPs(string(frame), fmt.Sprint(c.Cut, c.Failure, c.Together, c.Delivery, c.Chunks, c.Reader, c.NonSticky)), nt, kind+"/"+class, func() interface{} {
 				s := c
 				if len(s.Frame) > 64 {
 					s.Frame = append(Hex(nil), s.Frame[:64]...)
